@@ -369,7 +369,7 @@ fn run_part<A: Alg>(label: &str, n: usize, mode: Mode, depth: Option<usize>, all
     }
     // thorough parts are many and deep: a part that would grow beyond the cap is stopped there (reported as
     // cap_hit with the depth it completed) instead of exhausting the machine's memory
-    let cfg = ExploreCfg { max_depth: depth, max_states: if wall > 100.0 { 6_000_000 } else { 30_000_000 }, wall_cap_s: wall };
+    let cfg = ExploreCfg { max_depth: depth, max_states: if wall > 100.0 { 8_000_000 } else { 30_000_000 }, wall_cap_s: wall };
     let t0 = std::time::Instant::now();
     let res = explore(&sys, &cfg);
     Part { name: label.to_string(), n, depth, res, wall: t0.elapsed().as_secs_f64() }
@@ -745,7 +745,7 @@ fn main() {
     for n in 1..=(if quick { 3 } else { 4 }) {
         parts.push(run_part::<AlgSumAddZ4>("SumAdd<Z4>", n, mode, None, true, wall));
     }
-    let bi: &[(usize, usize)] = if quick { &[(1, 4), (2, 4), (3, 3), (4, 2), (5, 1)] } else { &[(1, 5), (2, 5), (3, 4), (4, 3), (5, 3), (6, 2), (7, 2)] };
+    let bi: &[(usize, usize)] = if quick { &[(1, 4), (2, 4), (3, 3), (4, 2), (5, 1)] } else { &[(1, 5), (2, 5), (3, 4), (4, 3), (5, 2), (6, 2), (7, 2)] };
     for &(n, bd) in bi {
         parts.push(run_part::<AlgMinAdd>("MinAdd<i64>", n, mode, Some(bd), true, wall));
         parts.push(run_part::<AlgMaxAdd>("MaxAdd<i64>", n, mode, Some(bd), true, wall));
@@ -783,7 +783,7 @@ fn main() {
 
     // Part D: constructors and point assignments fed with elements that carry a stale pending modifier
     // (an element read back from another tree after a range modification), bounded depth
-    let dn: &[(usize, usize)] = if quick { &[(1, 3), (2, 3), (3, 3), (4, 2)] } else { &[(1, 4), (2, 4), (3, 4), (4, 3), (5, 3), (6, 2)] };
+    let dn: &[(usize, usize)] = if quick { &[(1, 3), (2, 3), (3, 3), (4, 2)] } else { &[(1, 4), (2, 4), (3, 4), (4, 3), (5, 2), (6, 2)] };
     for &(n, d) in dn {
         parts.push(run_part::<AlgW>("W+stale-tags", n, mode, Some(d), true, wall));
         parts.push(run_part::<AlgA3>("A3+stale-tags", n, mode, Some(d), true, wall));
@@ -825,6 +825,10 @@ fn main() {
             all_closed = false;
         }
         if p.res.cap_hit.is_some() && p.depth.is_none() {
+            all_closed = false;
+        }
+        // a depth-bounded part that was stopped by a state or wall cap did not cover its depth
+        if p.res.cap_hit.as_deref().map_or(false, |c| !c.starts_with("depth bound")) {
             all_closed = false;
         }
         table.push(json!({"algebra": p.name, "n": p.n, "depth_bound": p.depth, "wall_s": (p.wall * 100.0).round() / 100.0, "result": p.res.to_json()}));
